@@ -565,3 +565,158 @@ Proof.
   rewrite post_init_sp. destruct (sp_valid a) eqn:E; [|discriminate]. intros H; inversion H; subst.
   split; [reflexivity|exact (proj1 (sp_valid_iff _) E)].
 Qed.
+
+(* ---------------------------------------------------------------- combine_max *)
+Definition wf_mem_opt (o : option str) : Prop := forall m, o = Some m -> exists q, mem_denotes m q.
+Definition wf_time_opt (o : option str) : Prop := forall t, o = Some t -> exists n, time_denotes t n.
+
+Lemma le_oz_refl a : le_oz a a.
+Proof. destruct a; cbn; [lia|exact I]. Qed.
+Lemma le_oz_trans a b c : le_oz a b -> le_oz b c -> le_oz a c.
+Proof. destruct a, b, c; cbn; try tauto; lia. Qed.
+
+Lemma size_le_refl a : wf_mem_opt a -> size_le a a.
+Proof.
+  intros H. destruct a as [m|]; cbn; [|exact I]. destruct (H m eq_refl) as [q Hq].
+  exists q. split; [exact Hq|]. exists q. split; [exact Hq|apply Qle_refl].
+Qed.
+Lemma size_le_trans a b c : size_le a b -> size_le b c -> size_le a c.
+Proof.
+  destruct a as [m|]; cbn; [|tauto]. intros (q & Hq & Hb). destruct b as [m'|]; [|contradiction].
+  destruct Hb as (q' & Hq' & Hle). cbn. intros (q'' & Hq'' & Hc).
+  pose proof (mem_denotes_fun _ _ _ Hq' Hq''). subst q''.
+  exists q. split; [exact Hq|]. destruct c as [m''|]; [|contradiction].
+  destruct Hc as (q3 & Hq3 & Hle'). exists q3. split; [exact Hq3|]. eapply Qle_trans; eassumption.
+Qed.
+
+Lemma dur_le_refl a : wf_time_opt a -> dur_le a a.
+Proof.
+  intros H. destruct a as [t|]; cbn; [|exact I]. destruct (H t eq_refl) as [n Hn].
+  exists n. split; [exact Hn|]. exists n. split; [exact Hn|lia].
+Qed.
+Lemma dur_le_trans a b c : dur_le a b -> dur_le b c -> dur_le a c.
+Proof.
+  destruct a as [t|]; cbn; [|tauto]. intros (n & Hn & Hb). destruct b as [t'|]; [|contradiction].
+  destruct Hb as (n' & Hn' & Hle). cbn. intros (n'' & Hn'' & Hc).
+  pose proof (time_denotes_fun _ _ _ Hn' Hn''). subst n''.
+  exists n. split; [exact Hn|]. destruct c as [t''|]; [|contradiction].
+  destruct Hc as (n3 & Hn3 & Hle'). exists n3. split; [exact Hn3|lia].
+Qed.
+
+Lemma max_opt_z_bounds cur new :
+  le_oz cur (max_opt_z cur new) /\ le_oz new (max_opt_z cur new).
+Proof. destruct cur, new; cbn; repeat split; try lia; exact I. Qed.
+Lemma max_opt_z_pos cur new : pos_opt cur -> pos_opt new -> pos_opt (max_opt_z cur new).
+Proof. destruct cur, new; cbn; try tauto; lia. Qed.
+Lemma max_opt_z_nonneg cur new : nonneg_opt cur -> nonneg_opt new -> nonneg_opt (max_opt_z cur new).
+Proof. destruct cur, new; cbn; try tauto; lia. Qed.
+
+Lemma max_mem_step_ok cur new : wf_mem_opt cur -> wf_mem_opt new ->
+  exists res, max_mem_step cur new = Ok res /\ wf_mem_opt res /\ size_le cur res /\ size_le new res.
+Proof.
+  intros Hc Hn. unfold max_mem_step. destruct new as [m|].
+  - destruct (Hn m eq_refl) as [q Hq]. pose proof (denotes_mem_bytes _ _ Hq) as Eq.
+    destruct cur as [mm|].
+    + destruct (Hc mm eq_refl) as [qm Hqm]. pose proof (denotes_mem_bytes _ _ Hqm) as Eqm.
+      rewrite Eqm. cbn [bind]. rewrite Eq. cbn [is_some negb orb].
+      destruct (Qle_bool q qm) eqn:Ele; cbn [negb].
+      * exists (Some mm). split; [reflexivity|]. split; [exact Hc|]. split; [now apply size_le_refl|].
+        cbn. exists q. split; [exact Hq|]. exists qm. split; [exact Hqm|now apply Qle_bool_iff].
+      * exists (Some m). split; [reflexivity|]. split; [exact Hn|]. split; [|now apply size_le_refl].
+        cbn. exists qm. split; [exact Hqm|]. exists q. split; [exact Hq|].
+        apply Qlt_le_weak, Qnot_le_lt. intros Hle. apply Qle_bool_iff in Hle. congruence.
+    + cbn [bind]. rewrite Eq. cbn [is_some negb orb].
+      exists (Some m). split; [reflexivity|]. split; [exact Hn|]. split; [exact I|now apply size_le_refl].
+  - exists cur. split; [reflexivity|]. split; [exact Hc|]. split; [now apply size_le_refl|exact I].
+Qed.
+
+Lemma max_time_step_ok cur new : wf_time_opt cur -> wf_time_opt new ->
+  exists res, max_time_step cur new = Ok res /\ wf_time_opt res /\ dur_le cur res /\ dur_le new res.
+Proof.
+  intros Hc Hn. unfold max_time_step. destruct new as [x|].
+  - destruct (Hn x eq_refl) as [nx Hx]. destruct cur as [c|].
+    + destruct (Hc c eq_refl) as [nc Hcc]. unfold max_time.
+      rewrite (denotes_time_secs _ _ Hcc), (denotes_time_secs _ _ Hx). cbn [bind].
+      destruct (nc <? nx)%Z eqn:E.
+      * apply Z.ltb_lt in E. exists (Some x). split; [reflexivity|]. split; [exact Hn|].
+        split; [|now apply dur_le_refl]. cbn. exists nc. split; [exact Hcc|]. exists nx. split; [exact Hx|lia].
+      * apply Z.ltb_ge in E. exists (Some c). split; [reflexivity|]. split; [exact Hc|].
+        split; [now apply dur_le_refl|]. cbn. exists nx. split; [exact Hx|]. exists nc. split; [exact Hcc|lia].
+    + exists (Some x). split; [reflexivity|]. split; [exact Hn|]. split; [exact I|now apply dur_le_refl].
+  - exists cur. split; [reflexivity|]. split; [exact Hc|]. split; [now apply dur_le_refl|exact I].
+Qed.
+
+(* invariant of the loop in combine_max: the running maximum is well-formed and bounds every operand seen so far *)
+Definition md_bounds (md : maxdata) (r : res) : Prop :=
+  le_oz (cpus r) (m_cpus md) /\ le_oz (gpus r) (m_gpus md)
+  /\ size_le (memory r) (m_memory md) /\ dur_le (time r) (m_time md).
+Definition md_inv (md : maxdata) (seen : list res) : Prop :=
+  pos_opt (m_cpus md) /\ nonneg_opt (m_gpus md) /\ wf_mem_opt (m_memory md) /\ wf_time_opt (m_time md)
+  /\ forall r, In r seen -> md_bounds md r.
+
+Lemma valid_res_parts r : valid_res r ->
+  pos_opt (cpus r) /\ nonneg_opt (gpus r) /\ wf_mem_opt (memory r) /\ wf_time_opt (time r).
+Proof. intros (H1 & H2 & _ & _ & H5 & H6 & _). auto. Qed.
+
+Lemma combine_step_inv md seen r : md_inv md seen -> valid_res r ->
+  exists md', combine_step (Ok md) r = Ok md' /\ md_inv md' (r :: seen).
+Proof.
+  intros (Ic & Ig & Im & It & Ib) Hv. apply valid_res_parts in Hv as (Vc & Vg & Vm & Vt).
+  unfold combine_step. cbn [bind].
+  destruct (max_mem_step_ok _ _ Im Vm) as (mem & Em & Wm & Lm1 & Lm2).
+  destruct (max_time_step_ok _ _ It Vt) as (tt & Et & Wt & Lt1 & Lt2).
+  rewrite Em. cbn [bind]. rewrite Et. cbn [bind]. eexists. split; [reflexivity|].
+  destruct (max_opt_z_bounds (m_cpus md) (cpus r)) as [Bc1 Bc2].
+  destruct (max_opt_z_bounds (m_gpus md) (gpus r)) as [Bg1 Bg2].
+  unfold md_inv, md_bounds. cbn [m_cpus m_gpus m_memory m_time].
+  split; [now apply max_opt_z_pos|]. split; [now apply max_opt_z_nonneg|].
+  split; [exact Wm|]. split; [exact Wt|].
+  intros r' [<-|Hin].
+  - auto.
+  - destruct (Ib r' Hin) as (B1 & B2 & B3 & B4).
+    split; [eapply le_oz_trans; eassumption|]. split; [eapply le_oz_trans; eassumption|].
+    split; [eapply size_le_trans; eassumption|eapply dur_le_trans; eassumption].
+Qed.
+
+Lemma combine_fold_inv rs : forall md seen, md_inv md seen -> Forall valid_res rs ->
+  exists md', fold_left combine_step rs (Ok md) = Ok md' /\ md_inv md' (rev rs ++ seen).
+Proof.
+  induction rs as [|r rs IH]; intros md seen Hi Hv.
+  - exists md. split; [reflexivity|exact Hi].
+  - inversion Hv as [|? ? Hr Hrs]; subst. cbn [fold_left].
+    destruct (combine_step_inv md seen r Hi Hr) as (md1 & E1 & I1). rewrite E1.
+    destruct (IH md1 (r :: seen) I1 Hrs) as (md2 & E2 & I2). exists md2. split; [exact E2|].
+    cbn [rev]. rewrite <- app_assoc. exact I2.
+Qed.
+
+Lemma valid_default : valid_res default_res.
+Proof. apply sp_valid_iff. reflexivity. Qed.
+
+Lemma combine_max_upper_bound rs : Forall valid_res rs ->
+  exists res, combine_max rs = (Ok res, rs) /\ valid_res res /\ forall r, In r rs -> dominates res r.
+Proof.
+  intros Hv. unfold combine_max. destruct rs as [|r0 rs0].
+  - exists default_res. split; [now rewrite (post_init_valid _ valid_default)|].
+    split; [exact valid_default|]. intros r [].
+  - set (rs := r0 :: rs0) in *.
+    assert (I0 : md_inv (mkM None None None None None []) []).
+    { unfold md_inv; cbn [m_cpus m_gpus m_memory m_time pos_opt nonneg_opt].
+      split; [exact I|]. split; [exact I|]. split; [intros m H; discriminate|].
+      split; [intros t H; discriminate|]. intros r []. }
+    destruct (combine_fold_inv rs _ _ I0 Hv) as (md & E & (Ic & Ig & Im & It & Ib)). rewrite E.
+    set (res := mkR (m_cpus md) None None (m_memory md) (m_gpus md) (m_time md) (m_partition md)
+                    (m_extra md) (s "external")).
+    assert (Vres : valid_res res).
+    { unfold valid_res, res. cbn [cpus gpus nodes cpus_per_node memory time pos_opt].
+      split; [exact Ic|]. split; [exact Ig|]. split; [exact I|]. split; [exact I|].
+      split; [exact Im|]. split; [exact It|]. split; [intros [H _]; now apply H|intros H; now elim H]. }
+    exists res. rewrite (post_init_valid _ Vres). split; [reflexivity|]. split; [exact Vres|].
+    intros r Hin. apply Ib. rewrite app_nil_r. now apply in_rev in Hin.
+Qed.
+
+(* never an error, the result is a valid Resources value, the operands are returned untouched *)
+Lemma combine_max_operands rs : snd (combine_max rs) = rs.
+Proof.
+  unfold combine_max. destruct rs as [|r rs]; [reflexivity|].
+  destruct (fold_left combine_step (r :: rs) _); reflexivity.
+Qed.
